@@ -25,3 +25,33 @@ Theorem C03_latest_entry_decides : forall f initial cps,
   alookup f (va_from_log initial cps) = spec_lookup f initial cps.
 Proof. exact latest_wins. Qed.
 Print Assumptions C03_latest_entry_decides.
+
+(* ---- carried-over claims meeting the file again (Model/InitialAnchor.v) ----
+   INITIAL claims are bare line numbers; at the first checkpoint that sees the file again the code
+   reads them against the CURRENT content (Gen.GenCheckpoint.initial_anchored_to_current).  That is
+   exact as long as the file is what it was when the claims were written, and blind to what a person
+   typed otherwise: known class C03-K2, whose witness is k2_claims / k2_snapshot / k2_current. *)
+From Verif Require Import Gen.GenCheckpoint Model.InitialAnchor Proofs.InitialAnchorProofs.
+
+Theorem C03_initial_exact_when_unchanged : forall cl snapshot i,
+  NoDup snapshot -> positional cl snapshot i = by_content cl snapshot snapshot i.
+Proof. exact positional_exact_when_unchanged. Qed.
+Print Assumptions C03_initial_exact_when_unchanged.
+
+Theorem C03_first_checkpoint_is_positional : forall cl snapshot current i,
+  first_checkpoint cl snapshot current i = positional cl current i.
+Proof. exact first_checkpoint_now. Qed.
+Print Assumptions C03_first_checkpoint_is_positional.
+
+Theorem C03_initial_claims_ignore_content : forall cl cur cur' i,
+  len cur = len cur' -> positional cl cur i = positional cl cur' i.
+Proof. exact positional_ignores_content. Qed.
+Print Assumptions C03_initial_claims_ignore_content.
+
+Theorem C03_initial_positional_refuted :
+  first_checkpoint k2_claims k2_snapshot k2_current 2 = Some 7 /\
+  by_content k2_claims k2_snapshot k2_current 2 = None /\
+  first_checkpoint k2_claims k2_snapshot k2_current 3 = Some 7 /\
+  by_content k2_claims k2_snapshot k2_current 3 = None.
+Proof. exact k2_refuted. Qed.
+Print Assumptions C03_initial_positional_refuted.
